@@ -11,25 +11,50 @@ text the REAL renderer produces for every generated DAG, and `validate_sound` be
 equal values in every environment.  `scopeOk_iff` makes the scope check a decision procedure for `WellScoped`, the transcription
 of the scoping discipline of `IR._compute_type(env, agg_env, deep_typecheck=True)` including the aggregation scope.
 
-`validate` accepts only programs whose lifted bindings sit outside aggregation queries (`StreamAgg` queries and `AggLet`
-bindings are compared by evaluation on sampled environments only — harness/props/c35.py reports both counts).
+`validate` covers aggregation contexts: a value-scope binding `(Let eval __cse_N v b)` whose `v` contains aggregations, and an
+aggregation-scope binding `(AggLet __cse_N False v b)`.  The renderer's `agg_capability` pseudo-variable (re-bound by
+`AggFilter`, `AggLet`, `AggExplode`, `AggGroupBy`… in `renderable_bindings`, free in every aggregation by `free_agg_vars`) is
+modelled by what it stands for: `usesAgg v` — the value of `v` depends on the ambient aggregation scope — and `substOk` refuses a
+use of such a binding below a node that changes that scope (`agg_not_lifted_across_filter` below shows the two programs really
+differ).  `validate_sound` holds for every value scope AND every aggregation scope.
 -/
 namespace HailVerif.C35
 open HailVerif.ExprIR
 
 /-- (a) **Substitution lemma.**  A `Let` is its body with the bound expression substituted, provided the substitution is
-capture-avoiding (`substOk`: no binder between the `Let` and a use of `x` rebinds a free variable of `v`) and no aggregation
-node is involved. -/
+capture-avoiding and respects the aggregation scope (`substOk` with `fv v`, `fva v`, `usesAgg v`: no binder between the `Let` and
+a use of `x` rebinds a free variable of `v`; when `v` depends on the aggregation scope no use of `x` lies below an `AggFilter`, or
+below an `AggLet` binding a free aggregation variable of `v`; no use inside a `StreamAgg` query).  Aggregation nodes are allowed
+everywhere in `v` and `b`. -/
 theorem let_eq_subst (ρ : Env) (A : List Env) (x : Name) (v b : IR)
-    (hv : aggFree v = true) (hb : aggFree b = true) (hs : substOk x (fv v) b = true) :
+    (hs : substOk x (fv v) (fva v) (usesAgg v) b = true) :
     eval ρ A (.let_ x v b) = eval ρ A (subst x v b) := by
   simp only [eval]
-  exact eval_subst A x v hv b ρ hb hs
+  exact eval_subst x v b ρ A hs
 
-/-- The value of an aggregation-free expression depends only on its free variables. -/
-theorem eval_depends_on_fv (ρ ρ' : Env) (A : List Env) (t : IR) (ha : aggFree t = true)
+/-- (a, aggregation scope) An `AggLet` is its body with the bound expression substituted into the aggregation-scope children
+(aggregator arguments, `AggFilter` conditions, inner `AggLet` values). -/
+theorem aggLet_eq_substA (ρ : Env) (A : List Env) (x : Name) (v b : IR)
+    (hs : substAOk x (fv v) (fva v) (usesAgg v) b = true) :
+    eval ρ A (.aggLet x v b) = eval ρ A (substA x v b) := by
+  simp only [eval]
+  exact eval_substA x v b ρ A hs
+
+/-- the `agg_capability` rule, semantically: a term without the capability (`usesAgg = false`) has the same value in every
+aggregation scope — so it (and only it, see `agg_not_lifted_across_filter`) may be moved across a node that changes the scope -/
+theorem agg_scope_irrelevant (t : IR) (h : usesAgg t = false) (ρ : Env) (A A' : List Env) : eval ρ A t = eval ρ A' t :=
+  eval_A_irrel t ρ A A' h
+
+/-- **Coincidence** for the whole language: the value depends only on the value-scope bindings of `fv t` (`free_vars`) and, in
+each element environment of the aggregation scope, on the bindings of `fva t` (`free_agg_vars`). -/
+theorem eval_depends_on_fv_fva (t : IR) (ρ ρ' : Env) (A A' : List Env) (h : Agree (fv t) ρ ρ')
+    (hA : AgreeA (fva t) A A') : eval ρ A t = eval ρ' A' t :=
+  eval_agree t ρ ρ' A A' h hA
+
+/-- The value of an expression in a fixed aggregation scope depends only on its free variables. -/
+theorem eval_depends_on_fv (ρ ρ' : Env) (A : List Env) (t : IR)
     (h : ∀ y ∈ fv t, lookup ρ y = lookup ρ' y) : eval ρ A t = eval ρ' A t :=
-  eval_congr A t ρ ρ' ha h
+  eval_congr A t ρ ρ' h
 
 /-- Inlining every lifted binding (`inlineCse`) preserves the value in every value scope `ρ` and aggregation scope `A`,
 whenever the checker `inlineOk` accepts. -/
@@ -44,16 +69,15 @@ theorem validate_sound (rendered plain : IR) (h : validate rendered plain = true
   simp only [validate, Bool.and_eq_true, decide_eq_true_eq] at h
   rw [← h.2, eval_inlineCse rendered h.1 ρ A]
 
-/-- (b, specification level, ONE binding) **A CSE step preserves meaning.**  Let `v` be any (aggregation-free) subterm and `x` a
+/-- (b, specification level, ONE binding) **A CSE step preserves meaning.**  Let `v` be any subterm, `t` an aggregation-free bind site and `x` a
 fresh name.  Replacing every occurrence of `v` below the bind site `t` by `(Ref x)` — except below binders that rebind a
 variable of `v`, where the occurrence denotes something else — and binding `x` to `v` in a `Let` immediately above the site gives
 a program with the same value in every environment.  (The renderer iterates such steps with its own choice of sites; that the
 stack machine implements exactly this function is NOT proved — its output is validated program by program, `validate_sound`.) -/
 theorem cse_step_preserves (ρ : Env) (A : List Env) (x : Name) (v t : IR)
-    (hx : x ∉ names t) (ht : aggFree t = true) (hv : aggFree v = true) :
+    (hx : x ∉ names t) (ht : aggFree t = true) :
     eval ρ A (.let_ x v (abstractAt x v (fv v) t)) = eval ρ A t := by
-  rw [let_eq_subst ρ A x v _ hv (aggFree_abstractAt x v (fv v) t ht) (substOk_abstractAt x v (fv v) t ht hx),
-    subst_abstractAt x v (fv v) t hx]
+  rw [let_eq_subst ρ A x v _ (substOk_abstractAt x v (fv v) (fva v) (usesAgg v) t ht hx), subst_abstractAt x v (fv v) t hx]
 
 /-- the lifted binding of such a step is well-scoped exactly when `v` is well-scoped at the bind site, and the body may use `x` -/
 theorem cse_step_wellScoped (Γ : List Name) (Δ : Option (List Name)) (x : Name) (v b : IR)
@@ -64,9 +88,14 @@ theorem scopeOk_iff (Γ : List Name) (Δ : Option (List Name)) (t : IR) : scopeO
   ⟨scopeOk_sound t Γ Δ, scopeOk_complete⟩
 
 /-- What well-scopedness buys: every free variable is in scope, so the value only depends on the in-scope variables. -/
-theorem wellScoped_eval (Γ : List Name) (Δ : Option (List Name)) (t : IR) (hw : WellScoped Γ Δ t) (ha : aggFree t = true)
+theorem wellScoped_eval (Γ : List Name) (Δ : Option (List Name)) (t : IR) (hw : WellScoped Γ Δ t)
     (ρ ρ' : Env) (A : List Env) (h : ∀ y ∈ Γ, lookup ρ y = lookup ρ' y) : eval ρ A t = eval ρ' A t :=
-  eval_congr A t ρ ρ' ha fun y hy => h y (fv_subset_of_wellScoped hw ha y hy)
+  eval_congr A t ρ ρ' fun y hy => h y (fv_subset_of_wellScoped hw y hy)
+
+/-- … and inside an aggregation: on the variables of the value scope and, per element, on those of the aggregation scope. -/
+theorem wellScoped_eval_agg (Γ D : List Name) (t : IR) (hw : WellScoped Γ (some D) t)
+    (ρ ρ' : Env) (A A' : List Env) (h : Agree Γ ρ ρ') (hA : AgreeA D A A') : eval ρ A t = eval ρ' A' t :=
+  eval_agree t ρ ρ' A A' (h.mono (fv_subset_of_wellScoped hw)) (hA.mono (fva_subset_of_wellScoped hw))
 
 /-- Every lifted binding of an accepted, well-scoped rendering is placed where the variables it uses are in scope: the scope
 check of the whole rendering is the scope check of each `Let` value at its site (unfolding lemma for `Let`). -/
@@ -125,5 +154,45 @@ example : scopeOk [] none
 example : scopeOk [] none
     (.streamAgg x (.toStream (.acons (.i32 1) (.anil .int32)))
       (.aggLet c1 (.ref x) (.bin .add (.agg .max (.ref c1)) (.agg .max (.ref c1))))) = true := by decide
+
+/-! ### aggregation scope -/
+
+private def one : IR := .toStream (.acons (.i32 1) (.acons (.i32 5) (.anil .int32)))
+private def mx : IR := .agg .max (.ref x)
+private def small : IR := .cmp .lt (.ref x) (.i32 3)
+
+/-- `max(x) + filter(x < 3, max(x))` rendered with the aggregation lifted ABOVE the `AggFilter` (what the renderer does when
+`AggFilter.renderable_bindings` does not re-bind `agg_capability`): rejected … -/
+example : validate
+    (.streamAgg x one (.let_ c1 mx (.bin .add (.ref c1) (.aggFilter small (.ref c1)))))
+    (.streamAgg x one (.bin .add mx (.aggFilter small mx))) = false := by decide
+
+/-- … and rightly so: the two programs have different values (`5 + 5` against `5 + 1`) -/
+theorem agg_not_lifted_across_filter :
+    eval [] [] (.streamAgg x one (.let_ c1 mx (.bin .add (.ref c1) (.aggFilter small (.ref c1))))) = .i32 10 ∧
+    eval [] [] (.streamAgg x one (.bin .add mx (.aggFilter small mx))) = .i32 6 := by
+  constructor <;> rfl
+
+/-- the same aggregation shared twice at one level of the query: lifted, accepted -/
+example : validate
+    (.streamAgg x one (.let_ c1 mx (.bin .add (.ref c1) (.ref c1))))
+    (.streamAgg x one (.bin .add mx mx)) = true := by decide
+
+/-- an aggregation-free shared term may cross the `AggFilter` (it does not have the capability): accepted -/
+example : validate
+    (.streamAgg x one (.let_ c1 (.bin .add (.i32 1) (.i32 2)) (.bin .add (.ref c1) (.aggFilter small (.bin .add (.ref c1) mx)))))
+    (.streamAgg x one (.bin .add (.bin .add (.i32 1) (.i32 2))
+      (.aggFilter small (.bin .add (.bin .add (.i32 1) (.i32 2)) mx)))) = true := by decide
+
+/-- shared below the filter only: the binding sits inside the `AggFilter`, accepted -/
+example : validate
+    (.streamAgg x one (.aggFilter small (.let_ c1 mx (.bin .add (.ref c1) (.ref c1)))))
+    (.streamAgg x one (.aggFilter small (.bin .add mx mx))) = true := by decide
+
+/-- an aggregation-scope binding (`AggLet`) of a shared aggregator argument: accepted -/
+example : validate
+    (.streamAgg x one (.aggLet c1 (.bin .add (.ref x) (.i32 1)) (.bin .add (.agg .max (.ref c1)) (.aggFilter small (.agg .max (.ref c1))))))
+    (.streamAgg x one (.bin .add (.agg .max (.bin .add (.ref x) (.i32 1)))
+      (.aggFilter small (.agg .max (.bin .add (.ref x) (.i32 1)))))) = true := by decide
 
 end HailVerif.C35
